@@ -121,6 +121,14 @@ def tlc_mc(module, cfg, workers=8, timeout=900, env=None, xmx="8g", extra=None, 
                                                   "-noGenerateSpecTE", "-nowarning", "-config", cfg] + (extra or []) + [module]
     t0 = time.time()
     rc, out = sh(cmd, timeout, env=env, cwd=SPEC)
+    if rc not in (0, 124) and "Error:" not in out and "is violated" not in out:
+        # the JVM ended without a verdict of TLC (typically killed when the machine runs out of memory because
+        # many checks run side by side): one more attempt after a pause; a second failure is a tool error
+        log("[tlc] %s ended with rc=%s and no verdict; retrying once" % (name, rc))
+        time.sleep(20)
+        shutil.rmtree(meta, ignore_errors=True)
+        os.makedirs(meta, exist_ok=True)
+        rc, out = sh(cmd, timeout, env=env, cwd=SPEC)
     shutil.rmtree(meta, ignore_errors=True)
     secs = time.time() - t0
     res = {"name": name, "rc": rc, "out": out, "seconds": round(secs, 1), "generated": 0, "distinct": 0, "depth": 0}
@@ -141,7 +149,8 @@ def expect_mc_ok(res):
     """A failure of a specification-level model check does not depend on the code under
     test: it is an error of the machinery (exit 2), never a VIOLATION."""
     if not res["ok"]:
-        raise ToolError("specification-level model check %s failed:\n%s" % (res["name"], res["out"][-3000:]))
+        tail = "\n".join(l for l in res["out"].splitlines() if not l.startswith('"P '))[-3000:]
+        raise ToolError("specification-level model check %s failed (rc=%s):\n%s" % (res["name"], res["rc"], tail))
     log("[tlc] %-28s %9d distinct %10d generated depth %3d  %.1fs" %
         (res["name"], res["distinct"], res["generated"], res["depth"], res["seconds"]))
     return res
@@ -159,6 +168,13 @@ def validate_trace(path, prop, cfg="Trace.cfg", module="ArimaaTrace.tla", timeou
         e.update(env)
     t0 = time.time()
     rc, out = sh(cmd, timeout, env=e, cwd=SPEC)
+    if rc != 124 and '"ACCEPTED"' not in out and '"REJECTED at line"' not in out and "Error:" not in out:
+        # no verdict and no TLC error: the JVM was killed (memory pressure); one more attempt
+        log("[validate] %s ended with rc=%s and no verdict; retrying once" % (os.path.basename(path), rc))
+        time.sleep(20)
+        shutil.rmtree(meta, ignore_errors=True)
+        os.makedirs(meta, exist_ok=True)
+        rc, out = sh(cmd, timeout, env=e, cwd=SPEC)
     shutil.rmtree(meta, ignore_errors=True)
     res = {"path": path, "prop": prop, "rc": rc, "out": out, "seconds": round(time.time() - t0, 1),
            "accepted": False, "lines": 0, "rejected_at": None, "fails": [], "counts": []}
